@@ -1,5 +1,5 @@
 """Per-property configuration of ./check: proof obligations, correspondence profiles, monitors."""
-import json, os, re, subprocess, sys, time
+import json, shutil, os, re, subprocess, sys, time
 import rcc
 
 VERIF = rcc.VERIF
@@ -97,7 +97,7 @@ COMPONENTS = {
     'C18': [('derive', 'check_derive.py')],
     'C19': [('threads', 'check_threads.py')],
     'C15': [('leaf', 'leafcheck.py')],
-    'C16': [('leaf', 'leafcheck.py')],
+    'C16': [('leaf', 'leafcheck.py'), ('limits', 'check_limits.py')],
     'C12': [('leaf', 'leafcheck.py')],
 }
 
@@ -214,6 +214,45 @@ def check_obligations(prop, tier):
     return dict(total=len(mine) + (1 if fb or not ok_regen else 0), broken=broken, names=names, assumptions=assumptions,
                 model_built=model_built, coqchk=coqchk, checker_cmd='cd coq && coq_makefile -f _CoqProject -o Makefile && make -j16 (full .vo) ; coqc Print Assumptions per theorem',
                 make_ok=ok_make)
+
+
+LEAF_OPS = {0: 'CounterMarker::new_with_counter_to_one', 1: 'CounterMarker::increment_counter', 2: 'CounterMarker::decrement_counter',
+            3: 'CounterMarker::increment_tracing_counter', 4: 'CounterMarker::reset_tracing_counter', 5: 'CounterMarker::is_dropped',
+            6: 'CounterMarker::set_dropped', 7: 'CounterMarker::mark', 8: 'CounterMarker::set_finalized',
+            9: 'CounterMarker::set_allocated_for_metadata', 10: 'CounterMarker::is_not_marked', 11: 'CounterMarker::is_in_possible_cycles',
+            12: 'CounterMarker::is_in_list', 13: 'CounterMarker::is_in_list_or_queue', 14: 'CounterMarker::needs_finalization',
+            15: 'CounterMarker::has_allocated_for_metadata', 16: 'CounterMarker::counter', 17: 'CounterMarker::tracing_counter',
+            21: 'WeakCounterMarker::increment_counter', 22: 'WeakCounterMarker::decrement_counter', 23: 'WeakCounterMarker::counter',
+            24: 'WeakCounterMarker::is_accessible', 25: 'WeakCounterMarker::set_accessible'}
+
+
+def leaf_search():
+    """Failing-input search for broken header-refinement obligations: evaluates coq/search/LeafSearch.v
+    (boolean forms of the gen_*_spec statements) on the freshly generated code and returns
+    [(operation, tracing word, counter word)] for the first word on which each operation of the
+    current source differs from the abstract header operation the machine model uses."""
+    import hashlib
+    srcs = [os.path.join(COQ, 'gen', 'CounterMarkerGen.v'), os.path.join(COQ, 'gen', 'WeakCounterGen.v'), os.path.join(COQ, 'search', 'LeafSearch.v')]
+    if not all(os.path.exists(x) for x in srcs):
+        return None
+    h = hashlib.sha256(b''.join(open(x, 'rb').read() for x in srcs)).hexdigest()[:16]
+    cache = os.path.join(rcc.BUILD, f'leafsearch-{h}.json')
+    if os.path.exists(cache):
+        return json.load(open(cache))
+    with rcc.Lock('leafsearch'):
+        if os.path.exists(cache):
+            return json.load(open(cache))
+        d = os.path.join(rcc.BUILD, 'leafsearch')
+        os.makedirs(d, exist_ok=True)
+        dst = os.path.join(d, 'LeafSearch.v')
+        shutil.copy(srcs[2], dst)
+        rc, out = rcc.sh(['timeout', '900', 'coqc', '-noglob', '-Q', COQ, 'RC', dst], check=False, cwd=d, timeout=1000)
+        if rc != 0:
+            return None
+        flat = ' '.join(out.split())
+        res = [(LEAF_OPS.get(int(a), a), int(b), int(c)) for a, b, c in re.findall(r'\((\d+)%nat, Some \((\d+), (\d+)\)\)', flat)]
+        json.dump(res, open(cache, 'w'))
+        return res
 
 
 def run_components(prop, tier, seed):
